@@ -14,6 +14,14 @@ class Inconclusive(Exception):
     """Raised by the watchdog: the case ran too long; never a violation."""
 
 
+class CaseFailed(Exception):
+    """raised inside a hypothesis test body / state machine when a case has un-attributed failures"""
+
+
+class TooManyInconclusive(BaseException):
+    """the shard stops generating: the library does not answer on several tiny inputs"""
+
+
 class HarnessError(Exception):
     """A problem of the checking machinery itself (exit code 2)."""
 
